@@ -416,3 +416,157 @@ Definition rtu_nf_no_panic := nf_no_panic rstate (PRtu p) (rtu_parse p) Start rs
   bytes bytes_nil bytes_app bytes_firstn bytes_skipn
   H_mk (fun _ => eq_refl) I (fun _ _ _ => eq_refl) ltac:(cbn; lia) rneed_cap rstuck rtu_none rtu_some rtu_err rtu_panic.
 End Role2.
+
+(* ---------------------------------------------------------------- the Spec over s1 ++ s2; stability *)
+Section RoleCompose.
+Variable p : ptype.
+Notation r := (role_of p).
+
+Lemma rref_tail_unfold F s : rref_tail (S F) r s =
+  if Nat.ltb (length s) 2 then s
+  else let d := nth 0 s 0%N in let t := skipn 1 s in
+       match length_rule r (nth 0 t 0%N) with
+       | LUnknown => s
+       | LFixed n => rtu_body_tail (rref_tail F r) s d (1 + n) t
+       | LCount off => if Nat.ltb (length t) (1 + off) then s
+                       else rtu_body_tail (rref_tail F r) s d (1 + off + N.to_nat (nth off t 0%N)) t
+       end.
+Proof. destruct s as [|a [|fcv rest]]; reflexivity. Qed.
+
+Lemma body_tail_len k whole d plen t : (forall t', length (k t') <= length t') -> length t <= length whole ->
+  length (rtu_body_tail k whole d plen t) <= length whole.
+Proof.
+  intros Hk Ht. unfold rtu_body_tail. destruct (Nat.ltb 253 plen); [lia|]. destruct (Nat.ltb _ _); [lia|].
+  destruct (N.eqb _ _); [|lia]. etransitivity; [apply Hk|]. rewrite skipn_length. lia.
+Qed.
+Lemma rref_tail_len : forall F s, length (rref_tail F r s) <= length s.
+Proof.
+  induction F as [|F IH]; intros s; [cbn; lia|]. rewrite rref_tail_unfold. destruct (Nat.ltb _ 2); [lia|]. cbv zeta.
+  assert (Ht : length (skipn 1 s) <= length s) by (rewrite skipn_length; lia).
+  destruct (length_rule _ _); [now apply body_tail_len| |lia]. destruct (Nat.ltb _ _); [lia|now apply body_tail_len].
+Qed.
+Lemma body_tail_ext k1 k2 whole d plen t : (forall t', length t' < length t -> k1 t' = k2 t') ->
+  rtu_body_tail k1 whole d plen t = rtu_body_tail k2 whole d plen t.
+Proof.
+  intros H. unfold rtu_body_tail. destruct (Nat.ltb 253 plen); [reflexivity|].
+  destruct (Nat.ltb_spec (length t) (plen + 2)); [reflexivity|]. destruct (N.eqb _ _); [|reflexivity]. apply H. rewrite skipn_length. lia.
+Qed.
+Lemma rref_tail_fuel : forall f1 f2 s, length s < f1 -> length s < f2 -> rref_tail f1 r s = rref_tail f2 r s.
+Proof.
+  induction f1 as [|f1 IH]; intros f2 s H1 H2; [lia|]. destruct f2 as [|f2]; [lia|]. rewrite !rref_tail_unfold.
+  destruct (Nat.ltb_spec (length s) 2); [reflexivity|]. cbv zeta.
+  assert (Hk : forall t', length t' < length (skipn 1 s) -> rref_tail f1 r t' = rref_tail f2 r t').
+  { intros t' Ht. rewrite skipn_length in Ht. apply IH; lia. }
+  destruct (length_rule _ _); [now apply body_tail_ext| |reflexivity]. destruct (Nat.ltb _ _); [reflexivity|now apply body_tail_ext].
+Qed.
+
+Lemma rref_app_fuel : forall F s1 s2 fi, length (s1 ++ s2) < F ->
+  rref F r (s1 ++ s2) fi =
+  match rref F r s1 FinPending with
+  | (fs1, EndPending) => (fs1 ++ fst (rref F r (rref_tail F r s1 ++ s2) fi), snd (rref F r (rref_tail F r s1 ++ s2) fi))
+  | x => x
+  end.
+Proof.
+  induction F as [|F IH]; intros s1 s2 fi HF; [lia|]. rewrite (rref_unfold p F s1), rref_tail_unfold.
+  assert (Htriv : (let x := rref (S F) r (s1 ++ s2) fi in x = ([] ++ fst x, snd x))) by (cbv zeta; now destruct (rref (S F) r (s1 ++ s2) fi)).
+  cbv zeta in Htriv.
+  destruct (Nat.ltb_spec (length s1) 2) as [|H2]; [exact Htriv|]. cbv zeta.
+  rewrite app_length in HF.
+  (* the same first two bytes *)
+  assert (Hwhole := rref_unfold p F (s1 ++ s2) fi). rewrite app_length in Hwhole.
+  destruct (Nat.ltb_spec (length s1 + length s2) 2); [lia|]. cbv zeta in Hwhole.
+  rewrite (app_nth1 s1 s2) in Hwhole by lia. rewrite skipn_app_le in Hwhole by lia.
+  assert (Hl1 : 1 <= length (skipn 1 s1)) by (rewrite skipn_length; lia).
+  rewrite (app_nth1 (skipn 1 s1) s2) in Hwhole by lia.
+  set (d := nth 0 s1 0%N) in *. set (t1 := skipn 1 s1) in *.
+  assert (Ht1 : length t1 = length s1 - 1) by (unfold t1; apply skipn_length).
+  (* a body of plen bytes *)
+  assert (Hbody : forall plen, rref (S F) r (s1 ++ s2) fi = ref_rtu_body (kont p F fi) fi d plen (t1 ++ s2) ->
+    rref (S F) r (s1 ++ s2) fi =
+    match ref_rtu_body (kont p F FinPending) FinPending d plen t1 with
+    | (fs1, EndPending) => (fs1 ++ fst (rref (S F) r (rtu_body_tail (rref_tail F r) s1 d plen t1 ++ s2) fi),
+                            snd (rref (S F) r (rtu_body_tail (rref_tail F r) s1 d plen t1 ++ s2) fi))
+    | x => x
+    end).
+  { intros plen Hw. unfold rtu_body_tail. unfold ref_rtu_body at 1.
+    destruct (Nat.ltb_spec 253 plen) as [Hbig|Hsm].
+    - rewrite Hw. unfold ref_rtu_body. destruct (Nat.ltb_spec 253 plen); [reflexivity|lia].
+    - destruct (Nat.ltb_spec (length t1) (plen + 2)) as [|Hge]; [exact Htriv|].
+      rewrite Hw at 1. unfold ref_rtu_body at 1. destruct (Nat.ltb_spec 253 plen); [lia|].
+      rewrite app_length. destruct (Nat.ltb_spec (length t1 + length s2) (plen + 2)); [lia|].
+      rewrite firstn_app_le by lia. rewrite !(app_nth1 t1 s2) by lia.
+      destruct (N.eqb _ _); [|reflexivity]. rewrite skipn_app_le by lia. unfold kont.
+      rewrite IH by (rewrite app_length, skipn_length; lia).
+      pose proof (rref_tail_len F (skipn (plen + 2) t1)) as Htl. rewrite skipn_length in Htl.
+      rewrite (rref_fuel p (S F) F (rref_tail F r (skipn (plen + 2) t1) ++ s2)) by (rewrite app_length; lia).
+      destruct (rref F r (skipn (plen + 2) t1) FinPending) as [fs1 e1]. destruct e1; reflexivity. }
+  destruct (length_rule r (nth 0 t1 0%N)) as [n|off|].
+  - apply Hbody. exact Hwhole.
+  - destruct (Nat.ltb_spec (length t1) (1 + off)) as [|Hoff]; [exact Htriv|].
+    rewrite app_length in Hwhole. destruct (Nat.ltb_spec (length t1 + length s2) (1 + off)); [lia|].
+    rewrite (app_nth1 t1 s2) in Hwhole by lia. apply Hbody. exact Hwhole.
+  - exact Hwhole.
+Qed.
+
+Lemma rtu_ref_app F s1 s2 fi : length (s1 ++ s2) < F ->
+  rref F r (s1 ++ s2) fi =
+  match rref F r s1 FinPending with
+  | (fs1, EndPending) => (fs1 ++ fst (rref F r (rtu_tail r s1 ++ s2) fi), snd (rref F r (rtu_tail r s1 ++ s2) fi))
+  | x => x
+  end.
+Proof.
+  intros HF. unfold rtu_tail. rewrite (rref_tail_fuel (S (length s1)) F s1) by (rewrite app_length in HF; lia). now apply rref_app_fuel.
+Qed.
+Lemma rtu_tail_len s : length (rtu_tail r s) <= length s.
+Proof. apply rref_tail_len. Qed.
+
+Lemma rtu_stable st b : wf b -> bytes (b_pend b) -> rst_ok st -> buf_len b < rneed st -> rtu_parse p st b = (st, b, Ok None).
+Proof.
+  intros Hwf Hb Hst Hlt. rewrite rtu_parse_eq by assumption. destruct st as [|d len|d off]; cbn [srtu rneed rst_ok] in *.
+  - destruct (Nat.ltb_spec (buf_len b) 2); [reflexivity|lia].
+  - unfold sfull. destruct (Nat.ltb_spec 253 (1 + len)); [lia|]. destruct (Nat.ltb_spec (buf_len b) (1 + len + 2)); [reflexivity|lia].
+  - unfold soffset. destruct (Nat.ltb_spec (buf_len b) (1 + off)); [reflexivity|lia].
+Qed.
+End RoleCompose.
+
+(* ---------------------------------------------------------------- compositionality / cancel-safety: instances *)
+Lemma rtu_H_mk p : forall st b, parser_parse (PRtu p st) b = let '(st', b', r) := rtu_parse p st b in (PRtu p st', b', r).
+Proof. reflexivity. Qed.
+Section Role3.
+Variable p : ptype.
+Definition rtu_nf_fuel_indep := nf_fuel_indep rstate (PRtu p) (rtu_parse p) Start rst_ok rneed rcons_need (fun F s fi => rref F (role_of p) s fi) (rref_from p)
+  bytes bytes_nil bytes_app bytes_firstn bytes_skipn
+  (rtu_H_mk p) (fun _ => eq_refl) I (fun _ _ _ => eq_refl) ltac:(cbn; lia) rneed_cap (rstuck p) (rtu_none p) (rtu_some p) (rtu_err p) (rtu_panic p) (rtu_stable p).
+Definition rtu_nf_app := nf_app rstate (PRtu p) (rtu_parse p) Start rst_ok rneed rcons_need (fun F s fi => rref F (role_of p) s fi) (rref_from p)
+  bytes bytes_nil bytes_app bytes_firstn bytes_skipn
+  (rtu_H_mk p) (fun _ => eq_refl) I (fun _ _ _ => eq_refl) ltac:(cbn; lia) rneed_cap (rstuck p) (rtu_none p) (rtu_some p) (rtu_err p) (rtu_panic p) (rtu_stable p).
+Definition rtu_nf_cancel_safe := nf_cancel_safe rstate (PRtu p) (rtu_parse p) Start rst_ok rneed rcons_need (fun F s fi => rref F (role_of p) s fi) (rref_from p)
+  bytes bytes_nil bytes_app bytes_firstn bytes_skipn
+  (rtu_H_mk p) (fun _ => eq_refl) I (fun _ _ _ => eq_refl) ltac:(cbn; lia) rneed_cap (rstuck p) (rtu_none p) (rtu_some p) (rtu_err p) (rtu_panic p) (rtu_stable p).
+Definition rtu_run_st_fuel_indep := run_st_fuel_indep rstate (PRtu p) (rtu_parse p) Start rst_ok rneed rcons_need (fun F s fi => rref F (role_of p) s fi) (rref_from p)
+  bytes bytes_nil bytes_app bytes_firstn bytes_skipn
+  (rtu_H_mk p) (fun _ => eq_refl) I (fun _ _ _ => eq_refl) ltac:(cbn; lia) rneed_cap (rstuck p) (rtu_none p) (rtu_some p) (rtu_err p) (rtu_panic p) (rtu_stable p).
+Definition rtu_run_st_app := run_st_app rstate (PRtu p) (rtu_parse p) Start rst_ok rneed rcons_need (fun F s fi => rref F (role_of p) s fi) (rref_from p)
+  bytes bytes_nil bytes_app bytes_firstn bytes_skipn
+  (rtu_H_mk p) (fun _ => eq_refl) I (fun _ _ _ => eq_refl) ltac:(cbn; lia) rneed_cap (rstuck p) (rtu_none p) (rtu_some p) (rtu_err p) (rtu_panic p) (rtu_stable p).
+Definition rtu_run_ref_from := run_ref_from rstate (PRtu p) (rtu_parse p) Start rst_ok rneed rcons_need (fun F s fi => rref F (role_of p) s fi) (rref_from p)
+  bytes bytes_nil bytes_app bytes_firstn bytes_skipn
+  (rtu_H_mk p) (fun _ => eq_refl) I (fun _ _ _ => eq_refl) ltac:(cbn; lia) rneed_cap (rstuck p) (rtu_none p) (rtu_some p) (rtu_err p) (rtu_panic p) (rtu_stable p).
+Definition rtu_run_st_pending := run_st_pending rstate (PRtu p) (rtu_parse p) Start rst_ok rneed rcons_need (fun F s fi => rref F (role_of p) s fi) (rref_from p)
+  bytes bytes_nil bytes_app bytes_firstn bytes_skipn
+  (rtu_H_mk p) (fun _ => eq_refl) I (fun _ _ _ => eq_refl) ltac:(cbn; lia) rneed_cap (rstuck p) (rtu_none p) (rtu_some p) (rtu_err p) (rtu_panic p) (rtu_stable p).
+Definition rtu_waiting := waiting rstate (PRtu p) rst_ok rneed bytes.
+Definition rtu_represents := represents rstate (PRtu p) rst_ok (fun F s fi => rref F (role_of p) s fi) (rref_from p) bytes.
+Definition rtu_represents_fresh := represents_fresh rstate (PRtu p) (rtu_parse p) Start rst_ok rneed rcons_need (fun F s fi => rref F (role_of p) s fi) (rref_from p)
+  bytes bytes_nil bytes_app bytes_firstn bytes_skipn
+  (rtu_H_mk p) (fun _ => eq_refl) I (fun _ _ _ => eq_refl) ltac:(cbn; lia) rneed_cap (rstuck p) (rtu_none p) (rtu_some p) (rtu_err p) (rtu_panic p) (rtu_stable p) (rtu_tail (role_of p)) (fun F1 F2 s fi => rref_fuel p F1 F2 s fi) (rtu_ref_app p) (rtu_tail_len p).
+Definition rtu_run_represents := run_represents rstate (PRtu p) (rtu_parse p) Start rst_ok rneed rcons_need (fun F s fi => rref F (role_of p) s fi) (rref_from p)
+  bytes bytes_nil bytes_app bytes_firstn bytes_skipn
+  (rtu_H_mk p) (fun _ => eq_refl) I (fun _ _ _ => eq_refl) ltac:(cbn; lia) rneed_cap (rstuck p) (rtu_none p) (rtu_some p) (rtu_err p) (rtu_panic p) (rtu_stable p) (rtu_tail (role_of p)) (fun F1 F2 s fi => rref_fuel p F1 F2 s fi) (rtu_ref_app p) (rtu_tail_len p).
+Definition rtu_represents_step := represents_step rstate (PRtu p) (rtu_parse p) Start rst_ok rneed rcons_need (fun F s fi => rref F (role_of p) s fi) (rref_from p)
+  bytes bytes_nil bytes_app bytes_firstn bytes_skipn
+  (rtu_H_mk p) (fun _ => eq_refl) I (fun _ _ _ => eq_refl) ltac:(cbn; lia) rneed_cap (rstuck p) (rtu_none p) (rtu_some p) (rtu_err p) (rtu_panic p) (rtu_stable p) (rtu_tail (role_of p)) (fun F1 F2 s fi => rref_fuel p F1 F2 s fi) (rtu_ref_app p) (rtu_tail_len p).
+Definition rtu_run_cancel_eq := run_cancel_eq rstate (PRtu p) (rtu_parse p) Start rst_ok rneed rcons_need (fun F s fi => rref F (role_of p) s fi) (rref_from p)
+  bytes bytes_nil bytes_app bytes_firstn bytes_skipn
+  (rtu_H_mk p) (fun _ => eq_refl) I (fun _ _ _ => eq_refl) ltac:(cbn; lia) rneed_cap (rstuck p) (rtu_none p) (rtu_some p) (rtu_err p) (rtu_panic p) (rtu_stable p).
+End Role3.
